@@ -272,8 +272,16 @@ static std::string cmd_btcc(const std::vector<std::string>& a) {
     return in_child([&]() {
         std::vector<const char*> args;
         for (auto& x : w) args.push_back(x.c_str());
-        std::vector<Value> result = Value::parse_args(args);
-        return "OK " + Value::serialize(result);
+        // btcc's main runs both calls inside try { } catch (std::exception const&) { message; return 1; }
+        try {
+            std::vector<Value> result = Value::parse_args(args);
+            return "OK " + Value::serialize(result);
+        } catch (std::exception const& ex) {
+#ifdef VERIF_COV
+            __gcov_dump();
+#endif
+            _exit(1);
+        }
     });
 }
 static const char* vtype_name(const Value& v) {
